@@ -91,8 +91,11 @@ CHECKS = {
              'multivector (supported fragment), on EVERY body of the language the two never return different values, members outside the recorder '
              'raise AttributeError, and the compiled function is independent of the storage order of its arguments.  Method tables are translated '
              'from the source, the hand-modelled members are pinned.  PARTIAL: explicit calls of reflected dunders (x.__rmul__(y) ...) are covered '
-             'by the correspondence only; inv / div / sqrt enter as a storage-independent parameter (C07, C19); the symbolic=True route is proved for '
-             'one operator step, the rest by direct oracle.  Known findings F18 (symbolic sqrt), F19 (number literals printed with str), F20 '
+             'by the correspondence only; inv / div / sqrt enter as a storage-independent parameter (C07, C19).  register(symbolic=True): for every '
+             'division-free body incl. nested registered calls the symbolic run (zero-filter after every operator, any filter that drops only '
+             'zero tests, any symbol class with an operation-preserving evaluation) returns whenever f(xs) does and its coefficient polynomials '
+             'evaluate to the coefficients of f(xs) (C11_symbolic_agree); bodies with poles (inv, div, sqrt, norm, negative powers) by direct '
+             'oracle.  Known findings F18 (symbolic sqrt), F19 (number literals printed with str), F20 '
              '(python operators on coefficients).',
         technique='Rocq proof (two fuel inductions over an executable model of both interpreters; table well-behavedness from the product theory) + in-Coq differential correspondence of recorded keys and values + direct oracle register / register(symbolic=True) vs f',
         ref='DESIGN.md 4 (C11)'),
